@@ -352,9 +352,67 @@ fn norm_boundary_part<V: Pq>(ctx: &mut Ctx) {
     ctx.add_part(part);
 }
 
+/// both directions over a ladder of message lengths with one of our keys
+fn length_ladder_part<V: Pq>(ctx: &mut Ctx, tier: Tier) {
+    let n = V::N;
+    let seed = ctx.seed.wrapping_mul(4096);
+    let (sk, pk) = V::keygen(seed_bytes(seed));
+    let (skb, pkb) = (V::sk_to_bytes(&sk), V::pk_to_bytes(&pk));
+    let top: usize = if tier.thorough() { 1100 } else { 300 };
+    let mut lens: Vec<usize> = (0..=top).collect();
+    lens.extend([471, 472, 473, 511, 512, 513, 1000]);
+    for k in [12usize, 14, 16, 18] {
+        lens.extend([(1 << k) - 41, (1 << k) - 40, 1 << k, (1 << k) + 1]);
+    }
+    lens.sort();
+    lens.dedup();
+    let t = lens
+        .par_iter()
+        .map(|&l| {
+            let mut t = Tally::default();
+            let msg: Vec<u8> = (0..l).map(|i| (i as u32).wrapping_mul(2654435761).rotate_left(5) as u8).collect();
+            let case = |what: &str| json!({"kind":"length","variant":n,"seed":seed,"len":l,"direction":what});
+            t.cases += 2;
+            t.calls += 4;
+            match sign_with_stream::<V>(30, &msg, &sk) {
+                Ok(sig) => {
+                    if V::pq_verify(&pq::rust_sig_to_pq(&V::sig_to_bytes(&sig)), &msg, &pkb) {
+                        t.out("our signature verifies in the reference");
+                    } else {
+                        t.viol(format!("reference-rejects-our-signature:n={}:by-length", n), format!("{}: our signature over a message of {} bytes is rejected by the reference verifier", V::name(), l), case("we sign, reference verifies"));
+                    }
+                }
+                Err(e) => t.viol(format!("sign-fails:n={}:by-length", n), format!("sign failed on a message of {} bytes: {}", l, e), case("we sign")),
+            }
+            let sseed = format!("c16-length-{}-{}", n, l).into_bytes();
+            match V::pq_sign(&sseed, &msg, &skb) {
+                Some(ps) => match pq::pq_sig_to_rust(&ps, sig_len(n)).map(|rs| catch(|| V::sig_from_bytes(&rs).map(|s| V::verify(&msg, &s, &pk)))) {
+                    Some(Ok(Ok(true))) => t.out("reference signature (our key) verifies here"),
+                    other => t.viol(format!("we-reject-reference-signature:n={}:by-length", n), format!("{}: a reference signature over a message of {} bytes is not accepted here: {:?}", V::name(), l, other), case("reference signs, we verify")),
+                },
+                None => t.viol(format!("reference-rejects-our-secret-key:n={},seed={}", n, seed), format!("{}: the reference cannot sign with our key bytes (seed {})", V::name(), seed), case("reference signs")),
+            }
+            t
+        })
+        .reduce(Tally::default, reduce);
+    let mut part = Part::new(&format!("message_length_ladder_{}", n), &format!("key of seed LE64({}) x {} message lengths (every length 0..={}, 471..473, 511..513, 1000, around 2^12 .. 2^18; position-dependent content): our signature verifies in the reference and the reference's signature verifies here", seed, lens.len(), top));
+    part.states = t.cases;
+    part.transitions = t.calls;
+    part.validated = t.cases;
+    part.exhaustive = true;
+    for (o, c) in &t.outcomes {
+        part.outcome(format!("{} x{}", o, c));
+    }
+    for (_, f) in t.found {
+        ctx.violation(f.key, f.what, f.case);
+    }
+    ctx.add_part(part);
+}
+
 fn one_variant<V: Pq>(ctx: &mut Ctx, tier: Tier) {
     large_coefficient_part::<V>(ctx);
     norm_boundary_part::<V>(ctx);
+    length_ladder_part::<V>(ctx, tier);
     let n = V::N;
     let seeds = crate::util::seed_window(n, tier.thorough(), ctx.seed);
     let seeds: Vec<u64> = if tier.thorough() { seeds.into_iter().take(if n == 512 { 48 } else { 12 }).chain(crate::util::seed_window(n, false, 0).into_iter().rev().take(1)).collect() } else { seeds.into_iter().rev().take(if n == 512 { 4 } else { 2 }).collect() };
@@ -450,7 +508,7 @@ pub fn replay(case: &Value) -> Result<Option<String>, String> {
                 pq_key_case::<V1024>(&mut t, idx)
             }
         }
-        "large-coefficient" | "norm-boundary" => return Err("re-run ./vf check C16 (the family is enumerated deterministically)".into()),
+        "large-coefficient" | "norm-boundary" | "length" => return Err("re-run ./vf check C16 (the family is enumerated deterministically)".into()),
         _ => return Err(format!("unknown kind {}", kind)),
     }
     Ok(t.found.into_iter().next().map(|(_, f)| f.what))
